@@ -86,6 +86,10 @@ def check(ctx):
     check_single_child(ctx)
     check_patch_restricted(ctx)
     check_deepest_first(ctx)
+    # under flatten the genes used (and reported) are the union of every
+    # parent's list (shared with C17)
+    from .C17 import check_flatten_union_complete
+    check_flatten_union_complete(ctx)
 
 
 def check_same_cache(ctx):
